@@ -452,10 +452,19 @@ impl<'a> Parser<'a> {
             .map(|p| match p {
                 LexFStringPart::Literal(s) => FStringPart::Literal(s.clone()),
                 LexFStringPart::Expr(s) => {
+                    // `{expr:?}` asks for the debug representation
+                    let (s, debug) = match s.trim_end().strip_suffix(":?") {
+                        Some(rest) => (rest, true),
+                        None => (s.as_str(), false),
+                    };
                     // Parse simple field access chains like "user.name" or "obj.field.sub"
                     let expr = self.parse_fstring_expr(s);
                     // Use the f-string's span so errors point to the f-string, not line 1
-                    FStringPart::Expr(Spanned::new(expr, fstring_span))
+                    if debug {
+                        FStringPart::DebugExpr(Spanned::new(expr, fstring_span))
+                    } else {
+                        FStringPart::Expr(Spanned::new(expr, fstring_span))
+                    }
                 }
             })
             .collect()
